@@ -19,7 +19,7 @@ def integerLine (line : String) : String :=
     | some a =>
       match integerEntry key a.toArray with
       | none => "BAD nofunc | " ++ line
-      | some (pre, model, chk) =>
+      | some (pre, model, chk, mode) =>
         if !pre then "PRE" else
         let impl : Option Res :=
           if res == ["EXC"] then some Res.thrown else
@@ -33,7 +33,12 @@ def integerLine (line : String) : String :=
           let modelSpecOk := chk model
           -- exact specifications determine the result: compare model and implementation directly;
           -- certificate-style specifications (Bezout cofactors, …): both must pass the checker
-          let modelOk := (model == ir) || (modelSpecOk && specOk && key.startsWith "gcd_" ) || (modelSpecOk && specOk && (key.splitOn "gcd").length > 1) || (modelSpecOk && specOk && (key.splitOn "inv").length > 1)
+          let sg (x : Int) : Int := if x < 0 then -1 else if x = 0 then 0 else 1
+          let modelOk :=
+            if mode == "exact" then model == ir
+            else if mode == "sign" then model.exc == ir.exc && model.outs == ir.outs && sg model.ret == sg ir.ret
+            else if mode == "truthy" then model.exc == ir.exc && model.outs == ir.outs && ((model.ret == 0) == (ir.ret == 0))
+            else modelSpecOk && specOk
           if specOk && modelOk then "OK"
           else
             let kind := if !specOk && !modelOk then "BOTH" else if !specOk then "SPEC" else "MODEL"
